@@ -142,6 +142,27 @@ def random_tree(rng, n, direction):
     return canon(edges)
 
 
+def broom(rng, branches, direction, shuffle=True):
+    """a root with one branch per (path length a, leaves b): a path of a nodes ending in a star of b leaves;
+    spiders (b = 0) and brooms are the classic shapes on which tree drawings get unbalanced"""
+    edges = []
+    nid = 1
+    for a, b in branches:
+        prev = 0
+        for _ in range(a):
+            edges.append((prev, nid))
+            prev = nid
+            nid += 1
+        for _ in range(b):
+            edges.append((prev, nid))
+            nid += 1
+    if direction == "in":
+        edges = [(v, u) for u, v in edges]
+    if shuffle:
+        rng.shuffle(edges)
+    return canon(edges)
+
+
 def caterpillar(n, direction):
     spine = max(2, n // 3)
     edges = [(i, i + 1) for i in range(spine - 1)]
